@@ -23,7 +23,7 @@ RULE = ('2-4 interpreters on generated charts that send events (with parameters 
         'still consumes its own copy as an internal event. non-trivial = a sender step with >= 1 sent event and >= 2 bound targets; '
         'distinct = distinct (charts, topology, sender, sent events)')
 COMPONENTS = {'real': common.REAL + ['Interpreter.bind / attach / detach', 'sismic.interpreter.listener.InternalEventListener'], 'stub': common.STUB}
-ASSUMPTIONS = common.ASSUME + ['a (sender, target) pair is bound at most once at a time',
+ASSUMPTIONS = common.ASSUME + ['an interpreter target is bound at most once to a sender at a time (callables may be bound twice)',
                                'whether a target receives the event before or after the sender queued its own copy is not constrained']
 LEVEL_TEXT = 'seeded exploration of multi-party delivery schedules with per-step delivery accounting and per-receiver queue models'
 LEVEL_NOTE = 'trusted: sim.ref.QueueModel per receiver; the recording callables as ground truth for deliveries'
@@ -65,6 +65,7 @@ def run(ch, tier):
         P.uid = 100000 * (i + 1)
         sims.append(Sim(sp, probe=P))
     glog = []
+    dup_ok = cs.flag(1, 2)
     calls = [Recorder('c%d' % j, glog) for j in range(ncall)]
     for c_ in calls:
         if cs.flag(1, 3):
@@ -207,7 +208,9 @@ def run(ch, tier):
             hist.append(('advance', 'i%d' % i, float(d)))
         elif op == 'bind':
             cands = ['i%d' % j for j in range(nint)] + ['c%d' % j for j in range(ncall)]
-            cands = [k for k in cands if k not in [x for x, _ in bound[i]]]
+            have = [x for x, _ in bound[i]]
+            # a callable may be bound twice to one sender (it then receives every event twice); interpreters once
+            cands = [k for k in cands if k not in have or (k.startswith('c') and have.count(k) < 2 and dup_ok)]
             if not cands:
                 continue
             key = ops.pick(cands)
